@@ -508,6 +508,16 @@ private:
       ++level;
     }
 
+    // A delay beyond the span of the top wheel would wrap around onto the
+    // bucket currently being cascaded: cascadeDown() would then re-insert the
+    // entry into the very bucket it is iterating and never terminate. Park it
+    // in the farthest bucket instead; it is re-examined (deadline check) each
+    // time that bucket is cascaded.
+    if (ticks >= levelCap)
+    {
+      ticks = levelCap - 1;
+    }
+
     auto& wheel = _wheels[level];
     auto idx = (wheel.currentTick + static_cast<std::size_t>(ticks)) & _tickMask;
 
